@@ -250,6 +250,8 @@ pub struct C {
     next: u64,
     /// output of a reference object handling only this direction (C12), attached to the next Call event
     pub ref_out: Option<Vec<u8>>,
+    /// header a separate one-direction reference object decodes from the same bytes (attached to the next ReadHdr)
+    pub ref_hdr: Option<Value>,
     /// the header the peer sent (C10), attached to the next decode event
     pub sent: Option<(u32, u32)>,
     /// the next decode event is performed on a clone taken in mid-header (C12)
@@ -268,10 +270,10 @@ pub fn wire_client(size: u16, opcode: u32) -> Vec<u8> {
     vec![(size >> 8) as u8, size as u8, o[0], o[1], o[2], o[3]]
 }
 
-fn hdr_json_server(size: u32, opcode: u16) -> Value {
+pub fn hdr_json_server(size: u32, opcode: u16) -> Value {
     json!({"size": size, "opcode": opcode})
 }
-fn hdr_json_client(size: u16, opcode: u32) -> Value {
+pub fn hdr_json_client(size: u16, opcode: u32) -> Value {
     json!({"size": size, "opcode": u32le(opcode)})
 }
 
@@ -295,9 +297,12 @@ macro_rules! dec_half {
 }
 
 impl Conn {
+    // OBSERVERS NEVER TOUCH THE LIVE OBJECT: state and reference clones of a combined object are taken through the
+    // accessors of a CLONE of the whole object, so that logging cannot itself be the "first operation" on the object
+    // (seeded change C12-m12: lazy set-up on first use, forgotten in one entry point, was hidden by the logging)
     pub fn enc_state(&mut self) -> Value {
         match &mut self.st {
-            State::Whole(c) => match c {
+            State::Whole(c) => match &mut c.clone() {
                 Cr::V(x) => En::V(x.encrypter().clone()).state(),
                 Cr::T(x) => En::T(x.encrypter().clone()).state(),
                 Cr::WC(x) => En::WC(x.encrypter().clone()).state(),
@@ -309,7 +314,7 @@ impl Conn {
     }
     pub fn dec_state(&mut self) -> Value {
         match &mut self.st {
-            State::Whole(c) => match c {
+            State::Whole(c) => match &mut c.clone() {
                 Cr::V(x) => De::V(x.decrypter().clone()).state(),
                 Cr::T(x) => De::T(x.decrypter().clone()).state(),
                 Cr::WC(x) => De::WC(x.decrypter().clone()).state(),
@@ -321,7 +326,7 @@ impl Conn {
     }
     pub fn enc_clone(&mut self) -> Option<En> {
         match &mut self.st {
-            State::Whole(c) => Some(match c {
+            State::Whole(c) => Some(match &mut c.clone() {
                 Cr::V(x) => En::V(x.encrypter().clone()),
                 Cr::T(x) => En::T(x.encrypter().clone()),
                 Cr::WC(x) => En::WC(x.encrypter().clone()),
@@ -333,7 +338,7 @@ impl Conn {
     }
     pub fn dec_clone(&mut self) -> Option<De> {
         match &mut self.st {
-            State::Whole(c) => Some(match c {
+            State::Whole(c) => Some(match &mut c.clone() {
                 Cr::V(x) => De::V(x.decrypter().clone()),
                 Cr::T(x) => De::T(x.decrypter().clone()),
                 Cr::WC(x) => De::WC(x.decrypter().clone()),
@@ -383,7 +388,7 @@ fn io_res<T>(r: Result<std::io::Result<T>, String>, okf: impl FnOnce(T) -> Value
 
 impl C {
     pub fn new(tr: Tr) -> C {
-        C { tr, next: 1, ref_out: None, sent: None, is_clone: false }
+        C { tr, next: 1, ref_out: None, ref_hdr: None, sent: None, is_clone: false }
     }
     fn sent_json(&mut self) -> Value {
         match self.sent.take() {
@@ -705,9 +710,11 @@ impl C {
         let st = c.dec_state();
         let left: usize = rd.steps.iter().map(|s| if let Step::Data(d) = s { d.len() } else { 0 }).sum();
         let other_after = c.enc_state();
-        self.tr.ev(json!({"ev": "ReadHdr", "h": c.hd, "kind": kind, "script": steps_json(script), "via": via, "res": res.clone(),
+        let mut ev = json!({"ev": "ReadHdr", "h": c.hd, "kind": kind, "script": steps_json(script), "via": via, "res": res.clone(),
                           "same": same, "unread": left, "st": st, "sent": sent, "afterAttempt": after_attempt,
-                          "otherSame": other_before == other_after}));
+                          "otherSame": other_before == other_after});
+        if let Some(rh) = self.ref_hdr.take() { ev["refHeader"] = rh; }
+        self.tr.ev(ev);
         res
     }
 
